@@ -19,6 +19,19 @@ ALL = ['C%02d' % i for i in range(1, 21)]
 DESIGN_REF = 'DESIGN.md section 4 (%s)'
 
 
+def level_text(prop):
+    if prop.LEVEL == 'fault_enumeration':
+        head = ('Fault enumeration inside a deterministic simulation: for each seeded workload the fault sites (numbered file-system seam ops, step/row/phase positions) are counted by a fault-free '
+                'run and then faults are injected at sampled sites, and at EVERY site x mode for a share of the workloads (complete sweeps; the share grows in the thorough tier). '
+                'A clean run is evidence over the sampled workloads and the swept fault sites, not a proof; the space of workloads is sampled. This is the right level because the property is '
+                'quantified over crash points / fault sequences, which are finite and enumerable per workload, while workloads are not. ')
+    else:
+        head = ('Seeded exploration inside a deterministic simulation: every run is a pure function of one integer (workload, knobs, ambient environment, faults and - where there is one - every '
+                'scheduling decision), executed in a freshly forked process and replayable bit-exactly; violations are minimised and written as replay files. A clean run is evidence over the '
+                'explored cases, not a proof. This is the right level because the property is quantified over unbounded spaces (programs, inputs, schedules, histories) that can be sampled but not enumerated. ')
+    return head + 'What one run explores: ' + prop.RULE
+
+
 def main():
     checks = []
     na = []
@@ -41,7 +54,7 @@ def main():
             'evidence_file': 'evidence/%s.json' % pid,
             'replay_cmd_template': './check %s --replay {path}' % pid,
             'engine': 'dfsim',
-            'level_claimed': {'category': prop.LEVEL, 'text': prop.LEVEL_TEXT if hasattr(prop, 'LEVEL_TEXT') else prop.RULE,
+            'level_claimed': {'category': prop.LEVEL, 'text': level_text(prop),
                               'design_ref': DESIGN_REF % pid},
             'level_note': '; '.join(prop.ASSUMPTIONS) or 'see DESIGN.md',
             'technique': prop.TECHNIQUE,
